@@ -66,17 +66,13 @@ theorem selectingNext_easy {sh : Shared D L} {s : Selecting} (h : ShInv env G sh
     exact (cancel_inv h).setComSame (ced_popCursor (cancel_inv h).ced) (by rw [popCursor_inner])
   · exact selResOK_ite (fun _ => leafSpin _) (fun _ => leafSpin _)
 
-/-- `process_keyevent` under an open candidate list, for the keys of `selectingNext_easy` -/
-theorem processKey_selecting_easy (hE : EnvOK env G) {e : Editor D L} (hi : EditorInv env G e) {s : Selecting}
-    (hst : e.state = .selecting s) (ev : KeyEvent) (hkey : selHardKey ev = false) :
+/-- `process_keyevent` under an open candidate list, given that the state's `next` is fine -/
+theorem processKey_selecting_of (hE : EnvOK env G) {e : Editor D L} {s : Selecting}
+    (hst : e.state = .selecting s) (ev : KeyEvent)
+    (hsel : SelResOK env G (selectingNext env s (preamble e.shared) ev)) :
     OkAnd (fun x => EditorInv env G x.1) (e.processKey env ev) := by
   rw [processKey_eq]
-  have h0 := preamble_inv hi.sh
-  have hs0 : SelInv env (preamble e.shared) s := by
-    have := hi.st
-    rw [hst] at this
-    exact StInv.same (st := .selecting s) this rfl rfl
-  obtain ⟨x, hq, h1, h2, h3⟩ := selectingNext_easy h0 hs0 ev hkey
+  obtain ⟨x, hq, h1, h2, h3⟩ := hsel
   unfold dispatch
   rw [hst]
   dsimp only
@@ -92,81 +88,10 @@ theorem processKey_selecting_easy (hE : EnvOK env G) {e : Editor D L} (hi : Edit
     exact tail_ok hE (sh := { x.shared with last := b }) (st := .selecting x.sel) (h1.congr rfl rfl rfl rfl rfl)
       (StInv.same (st := .selecting x.sel) (h2 b ht) rfl rfl)
 
-/-- what this package's theorem covers so far: everything except, **while a candidate list is open**,
-    `select(n)`, `jump_*` and the keys whose arm reads or changes the list (`selHardKey`: Down, Space, j, k,
-    Left, Right, PageUp, PageDown, digits — without Ctrl/Shift) -/
-def Covered (e : Editor D L) : Op L → Prop
-  | .key ev => ∀ s, e.state = .selecting s → selHardKey ev = false
-  | .select _ => ∀ s, e.state ≠ .selecting s
-  | .jump _ => ∀ s, e.state ≠ .selecting s
-  | _ => True
-
-/-- **one operation**: it returns (no panic, no exhausted fuel) and the invariant holds again -/
-theorem apply_ok (hE : EnvOK env G) {e : Editor D L} (hi : EditorInv env G e) (op : Op L) (hv : OpValid op)
-    (hk : ¬ Known env e op) (hc : Covered e op) : OkAnd (EditorInv env G) (e.apply env op) := by
-  cases op with
-  | key ev =>
-    have hpk : OkAnd (fun x => EditorInv env G x.1) (e.processKey env ev) := by
-      cases hst : e.state with
-      | selecting s => exact processKey_selecting_easy hE hi hst ev (hc s hst)
-      | entering => exact processKey_ok hE hi (fun s hs => by rw [hst] at hs; cases hs) ev
-      | enteringSyllable => exact processKey_ok hE hi (fun s hs => by rw [hst] at hs; cases hs) ev
-      | highlighting m => exact processKey_ok hE hi (fun s hs => by rw [hst] at hs; cases hs) ev
-    obtain ⟨⟨e', b⟩, hq, h1⟩ := hpk
-    simp only [Editor.apply]; rw [hq]; exact .ok h1
-  | select n =>
-    simp only [Editor.apply, Editor.select]
-    split
-    · next s hs => exact absurd hs (hc s)
-    · exact .ok hi
-  | startSelecting =>
-    obtain ⟨⟨e', b⟩, hq, h1⟩ := startSelecting_api_ok hE hi
-    simp only [Editor.apply]; rw [hq]; exact .ok h1
-  | cancelSelecting => exact .ok (cancelSelecting_api_ok hi)
-  | commit =>
-    obtain ⟨⟨e', b⟩, hq, h1⟩ := commit_api_ok hE hi
-    simp only [Editor.apply]; rw [hq]; exact .ok h1
-  | clear => exact .ok (clear_api_ok hi)
-  | ack => exact .ok ⟨hi.sh.congr rfl rfl rfl rfl rfl, hi.st.same rfl rfl⟩
-  | clearSyl =>
-    exact .ok (leaveIfEmpty_inv ⟨hi.sh.congr rfl rfl rfl rfl rfl, hi.st.same rfl rfl⟩)
-  | setOptions o =>
-    simp only [Known, Classical.not_not] at hk
-    refine .ok (leaveIfEmpty_inv ?_)
-    have hsh : ∀ sh1 : Shared D L, sh1.dict = e.shared.dict → sh1.com = e.shared.com → sh1.engine = e.shared.engine →
-        ShInv env G { sh1 with options := o } := by
-      intro sh1 hd hcm he
-      refine ⟨hd ▸ hi.sh.good, hcm ▸ hi.sh.ced, ?_, ?_, hv⟩
-      · intro c hcc
-        have hcc' : Sym.syl c ∈ e.shared.com.inner.symbols := by
-          have : sh1.com.inner.symbols = e.shared.com.inner.symbols := by rw [hcm]
-          exact this ▸ hcc
-        show env.hasPhrase sh1.dict [c] (engStrategy sh1.engine) = true ∧ env.hasPhrase sh1.dict [c] o.lookupStrategy = true
-        rw [hd, he]
-        exact ⟨(hi.sh.word c hcc').1, hk.1 c hcc'⟩
-      · show o.lookupStrategy = .fuzzyPartialPrefix → engStrategy sh1.engine = .fuzzyPartialPrefix
-        rw [he]; exact hk.2
-    by_cases hlm : (e.shared.options.languageMode != o.languageMode) = true
-    · exact ⟨by rw [if_pos hlm]; exact hsh _ rfl rfl rfl, by rw [if_pos hlm]; exact hi.st.same rfl rfl⟩
-    · exact ⟨by rw [if_neg hlm]; exact hsh _ rfl rfl rfl, by rw [if_neg hlm]; exact hi.st.same rfl rfl⟩
-  | setLayout l =>
-    exact .ok (leaveIfEmpty_inv ⟨hi.sh.congr rfl rfl rfl rfl rfl, hi.st.same rfl rfl⟩)
-  | setEngine k =>
-    simp only [Known, Classical.not_not] at hk
-    refine .ok ⟨⟨hi.sh.good, hi.sh.ced, ?_, hk.2, hi.sh.perPage⟩, hi.st.same rfl rfl⟩
-    intro c hcc
-    exact ⟨hk.1 c hcc, (hi.sh.word c hcc).2⟩
-  | learn k p => exact learn_api_ok hE hi k p
-  | unlearn k p =>
-    simp only [Known, Classical.not_not] at hk
-    refine .ok ⟨⟨hE.remove_good _ _ _ hi.sh.good, hi.sh.ced, ?_, hi.sh.coupled, hi.sh.perPage⟩, ?_⟩
-    · intro c hcc
-      exact ⟨hk.1 c hcc, hk.2.1 c hcc⟩
-    · exact stInv_unlearn hi hk.2.2 rfl rfl
-  | jump w =>
-    simp only [Editor.apply, Editor.jump]
-    split
-    · next s hs => exact absurd hs (hc s)
-    · exact .ok hi
+theorem selInv_preamble {e : Editor D L} (hi : EditorInv env G e) {s : Selecting} (hst : e.state = .selecting s) :
+    SelInv env (preamble e.shared) s := by
+  have := hi.st
+  rw [hst] at this
+  exact StInv.same (st := .selecting s) this rfl rfl
 
 end Chewing.C01
